@@ -165,6 +165,14 @@ def check(ctx):
             raise AnalysisError(f"{q2}: saturation table not found")
         t = tables[0]
         vs = [t.items[k] for k in ("So", "Sw", "Sg")]
+        hz = [e for e in p.events if e.kind == "arange_hazard"]
+        if hz:
+            ctx.bad(
+                "C14-d", q2 + ":sweep has a definite number of rows", f"{f2.file}:{hz[0].line}",
+                "the saturation sweep is built with a definite number of points (np.linspace): np.arange with a non-integer step whose stop is an exact multiple of the step yields n or n + 1 points depending on rounding - the extra point breaks So + Sw + Sg == 1",
+                signature="arange with float step", step=nf.show(it2.to_nf(hz[0].data["step"]), 60), count=nf.show(it2.to_nf(hz[0].data["count"]), 20),
+            )
+            break
         if not all(isinstance(v, Vec) for v in vs):
             raise AnalysisError(f"{q2}: saturation columns are not explicit grids")
         total = nf.add(vs[0].gen, nf.add(vs[1].gen, vs[2].gen))
